@@ -2305,3 +2305,146 @@ theorem featureObj_noCircle {o : POpts} {k : Keys} {base : Obj} (h : isCircleTyp
   · rfl
 
 end Geo
+
+namespace Geo
+
+/-- the kinds whose "coordinates" value exists (`writeCoords`): children of Multi* collections -/
+def isGeomLeaf : Obj → Bool
+  | .point _ _ => true
+  | .spoint _ => true
+  | .lineString _ _ _ => true
+  | .polygon _ _ _ => true
+  | .rectO _ _ _ => true
+  | _ => false
+
+theorem lineChild_leaf {o : POpts} {v : JVal} {x : Obj} (h : lineChild o v = .ok x) :
+    isGeomLeaf x = true := by
+  rw [lineChild_eq] at h
+  split at h
+  · cases h
+  · split at h
+    · cases h
+    · cases h; rfl
+
+theorem polyChild_leaf {o : POpts} {v : JVal} {x : Obj} (h : polyChild o v = .ok x) :
+    isGeomLeaf x = true := by
+  rw [polyChild_eq] at h
+  split at h
+  · cases h
+  · split at h
+    · cases h
+    · cases h; rfl
+
+end Geo
+
+namespace Geo
+
+/-! ### the Circle decision of a Feature, separated from the base object -/
+
+/-- `none`: not a Circle candidate; `some (.ok r)`: a Circle with radius text `r`;
+    `some (.error e)`: a Circle candidate that is rejected -/
+def circleDecision (o : POpts) (k : Keys) : Option (Except PErr String) :=
+  if !o.disableCircle && isCircleType k then
+    some (match radiusTexts k with
+      | none => .error .unmodelled
+      | some (m, km) =>
+        if unitsOf k == "" || unitsOf k == "m" then .ok m
+        else if unitsOf k == "km" then .ok km
+        else .error .circleUnits)
+  else none
+
+theorem featureObj_eq (o : POpts) (k : Keys) (b : Obj) :
+    featureObj o k b =
+      match centreOf b, withMembers none k, circleDecision o k with
+      | some c, some _, some (.ok r) => .ok (.circle c r)
+      | some _, some _, some (.error e) => .error e
+      | _, _, _ => .ok (.feature b (withMembers none k)) := by
+  unfold featureObj circleDecision
+  cases centreOf b with
+  | none => rfl
+  | some c =>
+    cases withMembers none k with
+    | none => rfl
+    | some e =>
+      simp only
+      cases (!o.disableCircle && isCircleType k) with
+      | false => rfl
+      | true =>
+        simp only [if_true]
+        cases radiusTexts k with
+        | none => rfl
+        | some mk =>
+          obtain ⟨m, km⟩ := mk
+          simp only
+          cases (unitsOf k == "" || unitsOf k == "m") with
+          | true => rfl
+          | false =>
+            simp only [Bool.false_eq_true, if_false]
+            cases (unitsOf k == "km") <;> rfl
+
+theorem circleDecision_congr {o o' : POpts} (h : o.disableCircle = o'.disableCircle) (k : Keys) :
+    circleDecision o k = circleDecision o' k := by
+  unfold circleDecision
+  rw [h]
+
+end Geo
+
+namespace Geo
+
+theorem parseTyped_unknown (o : POpts) (k : Keys) (pr pl) {ty : String} (h : ty ∉ nineTypes) :
+    parseTyped o k pr pl ty = .error .typeUnknown := by
+  refine parseTyped_elim (motive := fun ty res => ty ∉ nineTypes → res = .error .typeUnknown)
+    o k pr pl ty ?_ ?_ ?_ ?_ ?_ ?_ ?_ ?_ ?_ (fun _ _ => rfl) h
+  all_goals (intro hne; exact absurd (by decide) hne)
+
+/-- the type dispatch, for two runs of `parseTyped` on the same keys -/
+theorem parseTyped_elim₂ {motive : String → Except PErr Obj → Except PErr Obj → Prop}
+    (o o' : POpts) (k : Keys) (pr pr' : JVal → Except PErr Obj)
+    (pl pl' : List JVal → Except PErr (List Obj)) (ty : String)
+    (hPoint : motive "Point" (pointCase o k) (pointCase o' k))
+    (hLine : motive "LineString" (lineCase o k) (lineCase o' k))
+    (hPoly : motive "Polygon" (polyCase o k) (polyCase o' k))
+    (hMPoint : motive "MultiPoint" (multiPointCase o k) (multiPointCase o' k))
+    (hMLine : motive "MultiLineString" (multiLineCase o k) (multiLineCase o' k))
+    (hMPoly : motive "MultiPolygon" (multiPolyCase o k) (multiPolyCase o' k))
+    (hGC : motive "GeometryCollection" (geomCollCase o k pl) (geomCollCase o' k pl'))
+    (hFC : motive "FeatureCollection" (featCollCase o k pl) (featCollCase o' k pl'))
+    (hF : motive "Feature" (featureCase o k pr) (featureCase o' k pr'))
+    (hU : ty ∉ nineTypes → motive ty (.error .typeUnknown) (.error .typeUnknown)) :
+    motive ty (parseTyped o k pr pl ty) (parseTyped o' k pr' pl' ty) := by
+  refine parseTyped_elim (motive := fun ty res => motive ty res (parseTyped o' k pr' pl' ty))
+    o k pr pl ty hPoint hLine hPoly hMPoint hMLine hMPoly hGC hFC hF ?_
+  intro hne
+  rw [parseTyped_unknown o' k pr' pl' hne]
+  exact hU hne
+
+end Geo
+
+namespace Geo
+
+theorem parse_obj_ok {o : POpts} {n : Nat} {ms : List (String × String × JVal)} {x : Obj}
+    (h : parse o (n+1) (.obj ms) = .ok x) :
+    ∃ r ty, (scanKeys ms).type = some (.str r ty) ∧
+      parseTyped o (scanKeys ms) (parse o n) (parseList o n) ty = .ok x := by
+  rw [parse_succ_obj] at h
+  split at h
+  · cases h
+  · rename_i r ty hty
+    exact ⟨r, ty, hty, h⟩
+  · cases h
+
+theorem parse_ok_isObj {o : POpts} {n : Nat} {v : JVal} {x : Obj} (h : parse o n v = .ok x) :
+    ∃ m ms, n = m + 1 ∧ v = .obj ms := by
+  cases n with
+  | zero => rw [parse_zero] at h; cases h
+  | succ m =>
+    cases v with
+    | obj ms => exact ⟨m, ms, rfl, rfl⟩
+    | null => rw [parse_succ_nonobj _ m _ (by intro ms h; cases h)] at h; cases h
+    | tru => rw [parse_succ_nonobj _ m _ (by intro ms h; cases h)] at h; cases h
+    | fls => rw [parse_succ_nonobj _ m _ (by intro ms h; cases h)] at h; cases h
+    | num => rw [parse_succ_nonobj _ m _ (by intro ms h; cases h)] at h; cases h
+    | str => rw [parse_succ_nonobj _ m _ (by intro ms h; cases h)] at h; cases h
+    | arr => rw [parse_succ_nonobj _ m _ (by intro ms h; cases h)] at h; cases h
+
+end Geo
